@@ -536,6 +536,10 @@ func (m *Machine) obligation(cond *Term, kind, id, msg string) {
 					mod, _ = s.Model(m.varsOf(m.pc))
 				} else if res == "unsat" {
 					panic(pathEnd{"infeasible", "pc unsat at violation"})
+				} else {
+					// the path's feasibility could not be established: not a violation
+					m.w.obligations--
+					panic(pathEnd{"unsupported", "solver undecided on the feasibility of a path that ends in " + id})
 				}
 			}
 		}
